@@ -237,7 +237,8 @@ def gen_case(seeds, params, index):
     return {'family': 'limit', 'flavour': flavour, 'N': N,
             'Q': f.choice([-1, -1, -1, 2000, 20000]),
             'target': [e['name'], slot, ei], 'stream': stream, 'call': call,
-            'wrap': w.choice(WRAPS), 'convert_output': w.random() < 0.8}
+            'wrap': w.choice(WRAPS), 'convert_output': w.random() < 0.8,
+            'ctx_shape': w.choice(['plain'] * 8 + ['linked_bare', 'multi_bare'])}
 
 
 def gen_lambda_result_case(w, f, flavour, index):
@@ -475,7 +476,24 @@ def exec_limit(case, stats):
         return []
     registry = []
     undo = seams.patch_itertools(50 * (N + 1), registry)
-    ctx = synth.chain_contexts(flavour).create_child_context()
+    shape = case.get('ctx_shape', 'plain')
+    if shape == 'plain':
+        ctx = synth.chain_contexts(flavour).create_child_context()
+    else:
+        # the host evaluated something in a context of its own first and
+        # then composed that context with the library (three steps)
+        from yaql.language import contexts
+        bare = contexts.Context()
+        try:
+            synth.chain_engine(flavour)('1').evaluate(context=bare)
+        except Exception:
+            pass
+        if shape == 'linked_bare':
+            ctx = contexts.LinkedContext(synth.chain_contexts(flavour),
+                                         bare).create_child_context()
+        else:
+            ctx = contexts.MultiContext(
+                [bare, synth.chain_contexts(flavour)]).create_child_context()
     for k, v in synth.std_vars().items():
         ctx[k] = v
     s = make_stream(case['stream'], N, registry)
@@ -759,6 +777,8 @@ def shrink_candidates(case):
     if fam == 'limit':
         if case['wrap'] != 'none':
             yield mk(wrap='none')
+        if case.get('ctx_shape', 'plain') != 'plain':
+            yield mk(ctx_shape='plain')
         if case['Q'] != -1:
             yield mk(Q=-1)
         if not case.get('convert_output', True):
